@@ -54,12 +54,10 @@ def Scheme.needsParent : Scheme → Bool
   | .texCoords | .texCoordsDeprecated | .geometricNormal _ => true
   | _ => false
 
-/-- `SequentialIntegerAttributeDecoder::DecodeValues` + `DecodeIntegerValues` for an attribute of
-    an Edgebreaker mesh, every bitstream version. `kind`: 1 integer, 2 quantization, 3 normals;
-    `nc`: components of the portable values, `attComponents`: of the attribute. Returns the portable
-    values and, before 2.0, the transform parameters that precede them. -/
-def decodeIntegerValuesEb (kind numEntries nc attComponents : Nat) (md : MeshData) (pointIds : Array Nat)
-    (parent : Option Parent) : DecM (Array Int × TransformData) := do
+/-- method / transform bytes of `SequentialIntegerAttributeDecoder::DecodeValues`, the prediction
+    scheme `CreateIntPredictionScheme` yields for a mesh, and `InitPredictionScheme` (parent attribute) -/
+def selectScheme (kind : Nat) (pointIds : Array Nat) (parent : Option Parent) :
+    DecM (Scheme × PosSource × PosSourceF) := do
   let ver ← version
   let pre20 := ver < bsVersion 2 0
   let pre22 := ver < bsVersion 2 2
@@ -104,34 +102,36 @@ def decodeIntegerValuesEb (kind numEntries nc attComponents : Nat) (md : MeshDat
         if !p.intsOk then unsupp := "integer prediction scheme with the non-portable parent attribute of a stream < 2.0"
         pos := { pointIds := pointIds, map := p.map, values := p.ints }
   if unsupp != "" then failWith (.unsupported unsupp) else
-  -- DecodeIntegerValues; before 2.0 the quantization / octahedral parameters come first
-  let tr ← if pre20 then decodeTransformParams kind attComponents else pure TransformData.none
+  pure (scheme, pos, posF)
+
+/-- the symbol / raw part of `DecodeIntegerValues`: `numEntries * nc` unsigned values -/
+def readRawValues (pre20 : Bool) (numEntries nc : Nat) : DecM (List Nat) := do
   require (nc > 0)
   let numValues := numEntries * nc
   alloc "integer_decoder.portable_attribute" (4 * numValues)
   require (numEntries > 0)
   let compressed ← rdU8
-  let raw : List Nat ←
-    if compressed > 0 then lift (decodeSymbolsV pre20 numValues nc)
-    else do
-      let numBytes ← rdU8
-      if numBytes == 4 then
-        let b ← bytes (4 * numValues)
-        pure (leGroups 4 b)
-      else
-        require (numBytes * numValues ≤ 4 * numValues)
-        let rem ← remaining
-        require (numBytes * numValues ≤ rem)
-        if numBytes == 0 then pure (List.replicate numValues 0) else
-        let b ← bytes (numBytes * numValues)
-        pure (leGroups numBytes b)
-  let octa := match scheme with
-    | .deltaOcta _ | .geometricNormal _ => true
-    | _ => false
-  let vals : Array Int :=
-    if octa then (raw.map (toSigned 32)).toArray else (raw.map ofSymbol).toArray
+  if compressed > 0 then lift (decodeSymbolsV pre20 numValues nc)
+  else do
+    let numBytes ← rdU8
+    if numBytes == 4 then
+      let b ← bytes (4 * numValues)
+      pure (leGroups 4 b)
+    else
+      require (numBytes * numValues ≤ 4 * numValues)
+      let rem ← remaining
+      require (numBytes * numValues ≤ rem)
+      if numBytes == 0 then pure (List.replicate numValues 0) else
+      let b ← bytes (numBytes * numValues)
+      pure (leGroups numBytes b)
+
+/-- `DecodePredictionData` + `ComputeOriginalValues` of the selected scheme on the corrections `vals` -/
+def applyScheme (scheme : Scheme) (nc : Nat) (md : MeshData) (pos : PosSource) (posF : PosSourceF)
+    (vals : Array Int) : DecM (Array Int) := do
+  let ver ← version
+  let pre22 := ver < bsVersion 2 2
   let numCorners := 3 * md.t.numFaces
-  let out : Array Int ← match scheme with
+  match scheme with
   | .none => pure vals
   | .deltaWrap =>
     tag "pred:delta"
@@ -219,6 +219,26 @@ def decodeIntegerValuesEb (kind numEntries nc attComponents : Nat) (md : MeshDat
     tag ((if flipped > 0 then "pred:geometric_normal:flipped" else "pred:geometric_normal")
          ++ (if legacyOcta then "(legacy octahedron)" else "") ++ (if oneTriangle then "(one triangle)" else ""))
     pure r
+
+/-- `SequentialIntegerAttributeDecoder::DecodeValues` + `DecodeIntegerValues` for an attribute of
+    an Edgebreaker mesh, every bitstream version. `kind`: 1 integer, 2 quantization, 3 normals;
+    `nc`: components of the portable values, `attComponents`: of the attribute. Returns the portable
+    values and, before 2.0, the transform parameters that precede them. -/
+def decodeIntegerValuesEb (kind numEntries nc attComponents : Nat) (md : MeshData) (pointIds : Array Nat)
+    (parent : Option Parent) : DecM (Array Int × TransformData) := do
+  let ver ← version
+  let pre20 := ver < bsVersion 2 0
+  let (scheme, pos, posF) ← selectScheme kind pointIds parent
+  -- DecodeIntegerValues; before 2.0 the quantization / octahedral parameters come first
+  let tr ← if pre20 then decodeTransformParams kind attComponents else pure TransformData.none
+  let raw ← readRawValues pre20 numEntries nc
+  -- ConvertSymbolsToSignedInts unless the corrections of the scheme are positive (octahedron transforms)
+  let octa := match scheme with
+    | .deltaOcta _ | .geometricNormal _ => true
+    | _ => false
+  let vals : Array Int :=
+    if octa then (raw.map (toSigned 32)).toArray else (raw.map ofSymbol).toArray
+  let out ← applyScheme scheme nc md pos posF vals
   pure (out, tr)
 
 /-- one iteration of the corner loop of `UpdatePointToAttributeIndexMapping` -/
@@ -240,9 +260,14 @@ def pointToValueLoop (t : TView) (faces : Array Nat) (numPoints : Nat) (v2d : Ar
     pointToValueLoop t faces numPoints v2d n (c + 1) m'
 
 /-- `MeshTraversalSequencer::UpdatePointToAttributeIndexMapping`: `SetExplicitMapping(num_points)`
-    on a fresh attribute (all entries invalid), then every corner of every face -/
-def pointToValueMap (t : TView) (faces : Array Nat) (numPoints : Nat) (v2d : Array Nat) : R (Array Nat) :=
-  pointToValueLoop t faces numPoints v2d (3 * t.numFaces) 0 (Array.replicate numPoints inv)
+    on a fresh attribute (all entries invalid), then every corner of every face, then the check that
+    no entry stayed invalid -/
+def pointToValueMap (t : TView) (faces : Array Nat) (numPoints : Nat) (v2d : Array Nat) : R (Array Nat) := do
+  let m ← pointToValueLoop t faces numPoints v2d (3 * t.numFaces) 0 (Array.replicate numPoints inv)
+  -- every point must have received a value (`fix:` commit dcc9947): a point used by no face would stay
+  -- mapped to kInvalidAttributeValueIndex
+  if m.any (· == inv) then raise .fail
+  pure m
 
 structure EbAttState where
   desc : AttDesc
@@ -256,7 +281,16 @@ structure EbAttState where
   decoded : Bool := false
   /-- `TransformAttributesToOriginalFormat` of its decoder has run -/
   finished : Bool := false
+  /-- point → value index (`UpdatePointToAttributeIndexMapping`) -/
+  map : Array Nat := #[]
+  /-- number of decoded values (= length of the decoder's point sequence) -/
+  numValues : Nat := 0
 deriving Inhabited
+
+/-- the per-attribute state of the sequential attribute decoder (SeqDecoder.lean) -/
+def EbAttState.toSeq (s : EbAttState) : SeqAttState :=
+  { desc := s.desc, decoderType := s.decoderType, rawValues := s.rawValues,
+    portable := s.portable.toList, transform := s.transform }
 
 /-- the values of a float32 attribute as the public API shows them after `StoreValues` -/
 def finalFloats (s : EbAttState) : Option (Array Float32) :=
@@ -271,10 +305,10 @@ def finalFloats (s : EbAttState) : Option (Array Float32) :=
   bytes?.map fun b => ((leGroups 4 b).map fun w => Float32.ofBits (UInt32.ofNat w)).toArray
 
 /-- what `InitPredictionScheme` passes to `SetParentAttribute` for the first POSITION attribute -/
-def parentOf (ver : Nat) (skip : List Nat) (ps : EbAttState) (map : Array Nat) : Option Parent :=
+def parentOf (ver : Nat) (skip : List Nat) (ps : EbAttState) : Option Parent :=
   let pnc := if ps.decoderType == 3 then 2 else ps.desc.numComponents
   let ofPortable : Parent :=
-    { numComponents := pnc, map := map, ints := ps.portable, intsOk := true,
+    { numComponents := pnc, map := ps.map, ints := ps.portable, intsOk := true,
       floats := ps.portable.map Float32.ofInt, floatsOk := true }
   if ver ≥ bsVersion 2 0 then
     -- decoder_->GetPortableAttribute(att_id)
@@ -284,18 +318,11 @@ def parentOf (ver : Nat) (skip : List Nat) (ps : EbAttState) (map : Array Nat) :
     if ps.finished && ps.hasPortable && skip.contains ps.desc.attType then some ofPortable
     else
       let fl := if ps.decoded then finalFloats ps else none
-      some { numComponents := ps.desc.numComponents, map := map, ints := #[], intsOk := false,
+      some { numComponents := ps.desc.numComponents, map := ps.map, ints := #[], intsOk := false,
              floats := fl.getD #[], floatsOk := fl.isSome }
 
-/-- `PointCloudDecoder::DecodePointAttributes` of `MeshEdgebreakerDecoder` -/
-def decodeAttributes (opts : DecOpts) (mesh : Mesh) : DecM (List Attribute) := do
-  let ver ← version
-  let numAtt := mesh.atts.size
-  -- offsets for the structure-aware corruption campaigns: the decoder count byte is followed by
-  -- (att_data_id, decoder type, traversal method) per decoder
-  tag s!"at:att_decoders:{← remaining}"
-  let numDecoders ← rdU8
-  -- CreateAttributesDecoder(i)
+/-- `CreateAttributesDecoder(i)` for `i = 0 … numDecoders - 1` -/
+def createAttributeDecoders (ver numAtt numDecoders : Nat) : DecM (Array AttDecoder) := do
   let mut attDataDecoder : Array Int := Array.replicate numAtt (-1)
   let mut posDecoder : Int := -1
   let mut decoders : Array AttDecoder := #[]
@@ -318,130 +345,142 @@ def decodeAttributes (opts : DecOpts) (mesh : Mesh) : DecM (List Attribute) := d
       require (traversalMethod == Generated.MESH_TRAVERSAL_DEPTH_FIRST.toNat)
       require (decide (attDataId ≥ 0))
       decoders := decoders.push { attDataId, cornerDecoder := true, traversalMethod }
-  alloc "decoder.attributes_decoders" (8 * numDecoders)
-  -- DecodeAttributesDecoderData of every decoder
-  let mut states : Array EbAttState := #[]
-  for i in [0:numDecoders] do
-    tag s!"at:att_descs:{← remaining}"
-    let descs ← decodeAttDescs
-    alloc "controller.sequential_decoders" (8 * descs.length)
-    tag s!"at:att_decoder_types:{← remaining}"
-    for d in descs do
+  pure decoders
+
+/-- `SequentialAttributeDecodersController::DecodeAttributesDecoderData` of decoder `i`:
+    descriptors, decoder types, `Init` checks -/
+def decodeDecoderDescs (i : Nat) : DecM (List EbAttState) := do
+  let descs ← decodeAttDescs
+  alloc "controller.sequential_decoders" (8 * descs.length)
+  mapM' (fun (d : AttDesc) => do
       let dt ← rdU8
       require (dt ≤ 3)
       if dt == 2 then require (d.dataType == Generated.DT_FLOAT32.toNat)
       if dt == 3 then require (d.numComponents == 3 && d.dataType == Generated.DT_FLOAT32.toNat)
-      states := states.push { desc := d, decoderType := dt, decoder := i }
-  -- the first attribute of type POSITION (GetNamedAttributeId)
-  let posAtt : Option Nat := (List.range states.size).find? fun k =>
-    (states[k]!).desc.attType == Generated.geometryAttribute_POSITION.toNat
-  -- DecodeAllAttributes
+      pure ({ desc := d, decoderType := dt, decoder := i } : EbAttState)) descs
+
+/-- the state of attribute `pk` (global id): decoded already (`done`, in id order) or still as
+    `DecodeAttributesDecoderData` left it (`all`) -/
+def lookupState (all : Array EbAttState) (done : List EbAttState) (pk : Nat) : EbAttState :=
+  (done[pk]?).getD (all[pk]!)
+
+/-- `DecodePortableAttribute` of one attribute (`done`: everything decoded before it) -/
+def decodePortable (ver : Nat) (skip : List Nat) (posAtt : Option Nat) (all : Array EbAttState)
+    (md : MeshData) (pointIds : Array Nat) (m : Array Nat) (done : List EbAttState) (s0 : EbAttState) :
+    DecM EbAttState := do
+  let numEntries := pointIds.size
+  let s := { s0 with map := m, numValues := numEntries }
+  let stride := dataTypeLength s.desc.dataType * s.desc.numComponents
+  alloc "attribute.Reset" (numEntries * stride)
+  if s.decoderType == 0 then
+    let b ← bytes (numEntries * stride)
+    pure { s with rawValues := b, decoded := true }
+  else
+    let nc := if s.decoderType == 3 then 2 else s.desc.numComponents
+    let parent : Option Parent :=
+      match posAtt with
+      | none => none
+      | some pk => parentOf ver skip (lookupState all done pk)
+    let (vals, tr) ← decodeIntegerValuesEb s.decoderType numEntries nc s.desc.numComponents md pointIds parent
+    let s' := { s with portable := vals, hasPortable := true, decoded := true }
+    if ver < bsVersion 2 0 then
+      -- DecodeValues stores the values in their final form right away
+      let s'' := { s' with transform := tr }
+      storeValuesCheck s''.toSeq
+      pure s''
+    else
+      pure s'
+
+/-- `DecodePortableAttributes`: the attributes of one decoder, in order -/
+def decodePortables (ver : Nat) (skip : List Nat) (posAtt : Option Nat) (all : Array EbAttState)
+    (md : MeshData) (pointIds : Array Nat) (m : Array Nat) (done : List EbAttState) :
+    List EbAttState → List EbAttState → DecM (List EbAttState)
+  | [], acc => pure acc
+  | s :: rest, acc => do
+    let s' ← decodePortable ver skip posAtt all md pointIds m (done ++ acc) s
+    decodePortables ver skip posAtt all md pointIds m done rest (acc ++ [s'])
+
+/-- `DecodeDataNeededByPortableTransform` (bitstream ≥ 2.0; the parameters precede the values before) -/
+def decodeDataNeeded (ver : Nat) (s : EbAttState) : DecM EbAttState := do
+  if ver ≥ bsVersion 2 0 then
+    let tr ← decodeTransformParams s.decoderType s.desc.numComponents
+    if s.decoderType == 2 || s.decoderType == 3 then pure { s with transform := tr } else pure s
+  else pure s
+
+/-- the failure modes of `TransformAttributeToOriginalFormat` (≥ 2.0, attribute not skipped):
+    `StoreValues` of the integer / normal decoder -/
+def transformCheck (opts : DecOpts) (ver : Nat) (s : EbAttState) : DecM EbAttState := do
+  if ver ≥ bsVersion 2 0 && s.decoderType != 0 && !opts.skip.contains s.desc.attType then
+    storeValuesCheck s.toSeq
+  pure { s with finished := true }
+
+/-- `SequentialAttributeDecodersController::DecodeAttributes` of decoder `i` (`mine`: its attributes
+    as `DecodeAttributesDecoderData` left them, `done`: the attributes of the decoders before it) -/
+def decodeOneDecoder (opts : DecOpts) (ver : Nat) (mesh : Mesh) (posAtt : Option Nat) (all : Array EbAttState)
+    (i : Nat) (dec : AttDecoder) (mine : List EbAttState) (done : List EbAttState) : DecM (List EbAttState) := do
+  -- GenerateSequence
   let baseView : TView := { c2v := mesh.c2v, opp := mesh.opp, seam := #[], lm := mesh.vc, isAtt := false,
                             numFaces := mesh.numFaces }
-  let mut maps : Array (Array Nat) := Array.replicate states.size #[]
-  let mut numValuesOf : Array Nat := Array.replicate states.size 0
-  for i in [0:numDecoders] do
-    let dec := decoders[i]!
-    -- GenerateSequence
-    let view : TView :=
-      if dec.cornerDecoder then
-        let a := mesh.atts[dec.attDataId.toNat]!
-        { c2v := a.c2v, opp := mesh.opp, seam := a.edgeSeam, lm := a.lm, isAtt := true, numFaces := mesh.numFaces }
-      else baseView
-    let v2dSize :=
-      if dec.attDataId < 0 then mesh.vc.size
-      else max (mesh.atts[dec.attDataId.toNat]!).lm.size mesh.vc.size
-    alloc "mesh_traversal_sequencer.point_ids" (4 * view.numVertices)
-    let seq ← liftR (if dec.traversalMethod == Generated.MESH_TRAVERSAL_PREDICTION_DEGREE.toNat
-                     then maxPredictionDegree view mesh.faces v2dSize
-                     else depthFirst view mesh.faces v2dSize)
-    tag (if dec.cornerDecoder then "traversal:depth_first:attribute_table"
-         else if dec.traversalMethod == Generated.MESH_TRAVERSAL_PREDICTION_DEGREE.toNat then "traversal:max_prediction_degree"
-         else "traversal:depth_first")
-    if i > 0 then tag "attribute_decoders>1"
-    let md : MeshData := { t := view, d2c := seq.d2c, v2d := seq.v2d }
-    let numEntries := seq.pointIds.size
-    let idxs := (List.range states.size).filter fun k => (states[k]!).decoder == i
-    -- UpdatePointToAttributeIndexMapping for every attribute of the decoder
-    if !idxs.isEmpty then
-      alloc "attribute.indices_map" (4 * mesh.numPoints * idxs.length)
-      let m ← liftR (pointToValueMap view mesh.faces mesh.numPoints seq.v2d)
-      for k in idxs do
-        maps := maps.set! k m
-        numValuesOf := numValuesOf.set! k numEntries
-    -- DecodePortableAttributes
-    for k in idxs do
-      let s := states[k]!
-      let stride := dataTypeLength s.desc.dataType * s.desc.numComponents
-      alloc "attribute.Reset" (numEntries * stride)
-      if s.decoderType == 0 then
-        let b ← bytes (numEntries * stride)
-        states := states.set! k { s with rawValues := b, decoded := true }
-      else
-        let nc := if s.decoderType == 3 then 2 else s.desc.numComponents
-        let parent : Option Parent :=
-          match posAtt with
-          | none => none
-          | some pk => parentOf ver opts.skip (states[pk]!) (maps[pk]!)
-        let (vals, tr) ← decodeIntegerValuesEb s.decoderType numEntries nc s.desc.numComponents md seq.pointIds parent
-        let s' := { s with portable := vals, hasPortable := true, decoded := true }
-        if ver < bsVersion 2 0 then
-          -- DecodeValues stores the values in their final form right away
-          let s'' := { s' with transform := tr }
-          if s.decoderType == 1 then require (s.desc.dataType ≥ 1 && s.desc.dataType ≤ 6)
-          else if s.decoderType == 3 then
-            match tr with
-            | .octahedron bits => require (2 ≤ bits && bits ≤ 30)
-            | _ => fail
-          states := states.set! k s''
-        else
-          states := states.set! k s'
-    -- DecodeDataNeededByPortableTransforms (the parameters precede the values before 2.0)
-    if ver ≥ bsVersion 2 0 then
-      for k in idxs do
-        let s := states[k]!
-        let tr ← decodeTransformParams s.decoderType s.desc.numComponents
-        if s.decoderType == 2 || s.decoderType == 3 then
-          states := states.set! k { s with transform := tr }
-    -- TransformAttributesToOriginalFormat: only checks here, the values are produced below
-    for k in idxs do
-      let s := states[k]!
-      let d := s.desc
-      states := states.set! k { s with finished := true }
-      if ver ≥ bsVersion 2 0 && s.decoderType != 0 && !opts.skip.contains d.attType then
-        if s.decoderType == 1 then require (d.dataType ≥ 1 && d.dataType ≤ 6)
-        else if s.decoderType == 3 then
-          match s.transform with
-          | .octahedron bits => require (2 ≤ bits && bits ≤ 30)
-          | _ => fail
+  let view : TView :=
+    if dec.cornerDecoder then
+      let a := mesh.atts[dec.attDataId.toNat]!
+      { c2v := a.c2v, opp := mesh.opp, seam := a.edgeSeam, lm := a.lm, isAtt := true, numFaces := mesh.numFaces }
+    else baseView
+  let v2dSize :=
+    if dec.attDataId < 0 then mesh.vc.size
+    else max (mesh.atts[dec.attDataId.toNat]!).lm.size mesh.vc.size
+  alloc "mesh_traversal_sequencer.point_ids" (4 * view.numVertices)
+  let seq ← liftR (if dec.traversalMethod == Generated.MESH_TRAVERSAL_PREDICTION_DEGREE.toNat
+                   then maxPredictionDegree view mesh.faces v2dSize
+                   else depthFirst view mesh.faces v2dSize)
+  tag (if dec.cornerDecoder then "traversal:depth_first:attribute_table"
+       else if dec.traversalMethod == Generated.MESH_TRAVERSAL_PREDICTION_DEGREE.toNat then "traversal:max_prediction_degree"
+       else "traversal:depth_first")
+  if i > 0 then tag "attribute_decoders>1"
+  let md : MeshData := { t := view, d2c := seq.d2c, v2d := seq.v2d }
+  -- UpdatePointToAttributeIndexMapping for every attribute of the decoder
+  let m ← if mine.isEmpty then pure (#[] : Array Nat) else do
+    alloc "attribute.indices_map" (4 * mesh.numPoints * mine.length)
+    liftR (pointToValueMap view mesh.faces mesh.numPoints seq.v2d)
+  -- DecodePortableAttributes, DecodeDataNeededByPortableTransforms, TransformAttributesToOriginalFormat
+  let mine1 ← decodePortables ver opts.skip posAtt all md seq.pointIds m done mine []
+  let mine2 ← mapM' (decodeDataNeeded ver) mine1
+  let mine3 ← mapM' (transformCheck opts ver) mine2
+  pure (done ++ mine3)
+
+/-- `DecodeAllAttributes` -/
+def decodeDecoders (opts : DecOpts) (ver : Nat) (mesh : Mesh) (posAtt : Option Nat) (all : Array EbAttState) :
+    List (Nat × AttDecoder × List EbAttState) → List EbAttState → DecM (List EbAttState)
+  | [], done => pure done
+  | (i, dec, mine) :: rest, done => do
+    let done' ← decodeOneDecoder opts ver mesh posAtt all i dec mine done
+    decodeDecoders opts ver mesh posAtt all rest done'
+
+/-- `PointCloudDecoder::DecodePointAttributes` of `MeshEdgebreakerDecoder` -/
+def decodeAttributes (opts : DecOpts) (mesh : Mesh) : DecM (List Attribute) := do
+  let ver ← version
+  -- offset tag for the structure-aware corruption campaigns (tools/props/robustgen.py): the decoder count byte is
+  -- followed by (att_data_id, decoder type, traversal method) per decoder, then the descriptors of every decoder
+  tag s!"at:att_decoders:{← remaining}"
+  let numDecoders ← rdU8
+  let decoders ← createAttributeDecoders ver mesh.atts.size numDecoders
+  alloc "decoder.attributes_decoders" (8 * numDecoders)
+  -- DecodeAttributesDecoderData of every decoder
+  let descLists ← mapM' decodeDecoderDescs (List.range numDecoders)
+  let all := descLists.flatten.toArray
+  -- the first attribute of type POSITION (GetNamedAttributeId)
+  let posAtt : Option Nat := (List.range all.size).find? fun k =>
+    (all[k]!).desc.attType == Generated.geometryAttribute_POSITION.toNat
+  -- DecodeAllAttributes
+  let work := (List.range numDecoders).zip (decoders.toList.zip descLists)
+  let done ← decodeDecoders opts ver mesh posAtt all work []
   -- the attributes as the public API shows them
-  mapM' (fun (k : Nat) => do
-      let s := states[k]!
-      let d := s.desc
-      let n := numValuesOf[k]!
-      let mp := some (maps[k]!).toList
-      if s.decoderType == 0 then
-        pure { d.toAttribute n s.rawValues with map := mp }
-      else if opts.skip.contains d.attType then
-        let nc := if s.decoderType == 3 then 2 else d.numComponents
-        pure { attType := d.attType, dataType := Generated.DT_INT32.toNat, numComponents := nc,
-               normalized := false, uniqueId := d.uniqueId, numValues := n, map := mp,
-               values := (s.portable.toList.map (intToLE 4)).flatten, transform := s.transform }
-      else
-        match s.decoderType with
-        | 1 =>
-          let len := dataTypeLength d.dataType
-          pure { d.toAttribute n (s.portable.toList.map (intToLE len)).flatten with map := mp }
-        | 2 =>
-          match s.transform with
-          | .quantization bits mins range =>
-            pure { d.toAttribute n (dequantAll range bits.toNat mins s.portable.toList mins []).flatten with map := mp }
-          | _ => fail
-        | _ =>
-          match s.transform with
-          | .octahedron bits =>
-            pure { d.toAttribute n (octaAll bits.toNat s.portable.toList []).flatten with map := mp }
-          | _ => fail) (List.range states.size)
+  mapM' (fun (s : EbAttState) => finishSeqAttribute opts s.toSeq s.numValues (some s.map.toList)) done
+
+/-- `mesh->face(f)` for `f < num_faces`: the three point ids of the corners `3f, 3f+1, 3f+2` -/
+def facesOf (mesh : Mesh) : List (Nat × Nat × Nat) :=
+  (List.range mesh.numFaces).map fun f =>
+    (mesh.faces.getD (3 * f) 0, mesh.faces.getD (3 * f + 1) 0, mesh.faces.getD (3 * f + 2) 0)
 
 /-- body of an Edgebreaker mesh stream after the header and the metadata:
     `InitializeDecoder`, `DecodeGeometryData` (connectivity), `DecodePointAttributes` -/
@@ -449,6 +488,6 @@ def decodeEdgebreaker (opts : DecOpts) : DecM Geometry := do
   let mesh ← decodeConnectivity
   for t in tagsOf mesh.tags do tag t
   let atts ← decodeAttributes opts mesh
-  pure { isMesh := true, numPoints := mesh.numPoints, faces := triples mesh.faces.toList, atts := atts }
+  pure { isMesh := true, numPoints := mesh.numPoints, faces := facesOf mesh, atts := atts }
 
 end Draco.Eb
